@@ -5,7 +5,7 @@ import json, os, re, shutil, subprocess, sys, tempfile
 V = os.path.dirname(os.path.dirname(os.path.abspath(__file__)))
 spec = sys.argv[1]
 pid, sub = (spec.split("/", 1) + [""])[:2]
-src = f"/tmp/wt/{pid}/SEED" + (f"/{sub}" if sub else "")
+src = f"/tmp/wt/{pid}/" + os.environ.get("SEEDDIR", "SEED") + (f"/{sub}" if sub else "")
 props = sys.argv[2:] or [pid]
 tmp = tempfile.mkdtemp(prefix="vf-try-")
 root = os.path.join(tmp, "repo")
